@@ -10,6 +10,7 @@ import wn.taxonomy as tx
 
 from .. import env, mk, runner, budget
 from ..graphs import pairs, edges_of, Ref, dag_masks
+from ..observe import ili_of
 
 PROP = 'C13'
 
@@ -54,12 +55,44 @@ def build_lexicon(lid, g):
             for j in range(n):
                 if i != j:
                     rels[i].append(mk.rel(f'{lid}-{j}', 'antonym' if (i + j) % 2 else 'holo_part'))
+    if 'real' in g:
+        # expanded mode: the graph lives in the expand lexicon <lid>q; the queried lexicon <lid> has bare
+        # synsets for the nodes of the 'real' mask only, linked by ILI - all other nodes of the graph are
+        # seen as *INFERRED* placeholder synsets
+        q = lid + 'q'
+        for i in rels:
+            for r in rels[i]:
+                r['target'] = q + r['target'][len(lid):]
+        qs = [mk.synset(f'{q}-{i}', pos[i], _ili(lid, i), relations=rels[i]) for i in range(n)]
+        ps = [mk.synset(f'{lid}-{i}', pos[i], _ili(lid, i)) for i in range(n) if g['real'] >> i & 1]
+        return [mk.lexicon(lid, synsets=ps), mk.lexicon(q, synsets=qs)], edges, hypo
     syns = [mk.synset(f'{lid}-{i}', pos=pos[i], relations=rels[i]) for i in range(n)]
-    return mk.lexicon(lid, synsets=syns), edges, hypo
+    return [mk.lexicon(lid, synsets=syns)], edges, hypo
+
+
+def _ili(lid, i):
+    return f'i{lid}x{i}'
 
 
 def _name(ss, lid):
+    if ss.id == '*INFERRED*':
+        return int(ili_of(ss)[len(lid) + 2:])
     return Ref.ROOT if ss.id == '*ROOT*' else int(ss.id[len(lid) + 1:])
+
+
+def _discover(ss, lid):
+    """expanded mode: add the placeholder synsets that navigation from the real ones reaches"""
+    todo = list(ss.values())
+    while todo:
+        x = todo.pop()
+        st, v = budget.call(x.get_related, budget=4000)
+        if st != 'ok':
+            continue
+        for y in v:
+            k = _name(y, lid)
+            if k not in ss:
+                ss[k] = y
+                todo.append(y)
 
 
 def check_graph(lid, g, edges, hypo):
@@ -67,8 +100,17 @@ def check_graph(lid, g, edges, hypo):
     V = []
     n = g['n']
     ref = Ref(n, edges)
-    w = wn.Wordnet(lexicon=f'{lid}:1')
-    ss = {i: w.synset(f'{lid}-{i}') for i in range(n)}
+    expanded = 'real' in g
+    if expanded:
+        w = wn.Wordnet(lexicon=f'{lid}:1', expand=f'{lid}q:1')
+        real = [i for i in range(n) if g['real'] >> i & 1]
+        ss = {i: w.synset(f'{lid}-{i}') for i in real}
+        _discover(ss, lid)
+    else:
+        w = wn.Wordnet(lexicon=f'{lid}:1')
+        real = list(range(n))
+        ss = {i: w.synset(f'{lid}-{i}') for i in range(n)}
+    nodes = sorted(ss)
     obs = []
 
     def bad(key, msg):
@@ -85,7 +127,7 @@ def check_graph(lid, g, edges, hypo):
 
     pos = g.get('pos') or 'n' * n
     # per node
-    for i in range(n):
+    for i in nodes:
         for sim in (False, True):
             v, ok = call('hypernym_paths', ss[i].hypernym_paths, simulate_root=sim)
             if v is None:
@@ -111,7 +153,7 @@ def check_graph(lid, g, edges, hypo):
     has_hypo = {i for (i, j) in hypo}
     for p in sorted(set(pos) | {'n'}):
         grp = {p} | ({'a', 's'} if p in 'as' else set())
-        members = [i for i in range(n) if pos[i] in grp]
+        members = [i for i in real if pos[i] in grp]
         v, ok = call('roots', tx.roots, w, pos=p)
         if v is not None:
             got = sorted(_name(x, lid) for x in v) if ok else v
@@ -137,14 +179,16 @@ def check_graph(lid, g, edges, hypo):
     v, ok = call('roots', tx.roots, w)
     if v is not None:
         got = sorted(_name(x, lid) for x in v) if ok else v
-        exp = sorted(ref.roots())
+        exp = sorted(i for i in ref.roots() if i in real)
         if got != exp:
             bad('roots:differs', f'roots() = {got!r} expected {exp}')
     # pairs
     und = {(i, j) for (i, j) in edges} | {(j, i) for (i, j) in edges}
     rootset = ref.roots()
-    for a in range(n):
-        for b in range(n):
+    # (pairs start from real synsets only: the repository's tests pin '==' between any two placeholder
+    # synsets, so "a is b" is not defined for them; placeholders are covered as intermediate and end nodes)
+    for a in real:
+        for b in real:
             for sim in (False, True):
                 exp_c = ref.common(a, b, sim)
                 v, ok = call('common_hypernyms', tx.common_hypernyms, ss[a], ss[b], simulate_root=sim)
@@ -224,7 +268,7 @@ def check(case):
     for k, g in enumerate(gs):
         lid = f'g{k}'
         lex, edges, hypo = build_lexicon(lid, g)
-        lexs.append(lex)
+        lexs.extend(lex)
         built.append((lid, g, edges, hypo))
     env.add_resource(mk.resource(lexs))
     V, digs, nt = [], [], 0
@@ -345,6 +389,16 @@ def space(tier, seed):
     # all loop-free labelled digraphs on 4 nodes
     for h in range(1 << 12):
         gs.append({'n': 4, 'loops': False, 'h': h})
+    # expanded mode: the same digraphs stored in an expand lexicon and seen from a lexicon that has only
+    # the first r nodes (by relabelling symmetry every subset of that size), the others being *INFERRED*
+    # placeholders; start nodes are the real synsets and every placeholder navigation reaches
+    for n in (1, 2, 3):
+        for h in range(1 << (n * n)):
+            for r in range(1, n + 1):
+                gs.append({'n': n, 'loops': True, 'h': h, 'real': (1 << r) - 1})
+    for h in range(1 << 12):
+        for r in ((1, 2, 3, 4) if tier == 'thorough' else (1, 2)):
+            gs.append({'n': 4, 'loops': False, 'h': h, 'real': (1 << r) - 1})
     if tier == 'thorough':
         for h in range(1 << 16):
             if any(h >> k & 1 for k in (0, 5, 10, 15)):   # the ones with >=1 self-loop
